@@ -262,6 +262,7 @@ type memtableQueue struct {
 // newMemtableQueue creates a new memtable queue.
 func newMemtableQueue(vecIdx VectorIndex, txtIdx TextIndex, metaIdx MetadataIndex, sizeLimit int64) *memtableQueue {
 	mutable := newMemtable(vecIdx, txtIdx, metaIdx, sizeLimit)
+	verifPoint("memtable.created", mutable.index)
 
 	return &memtableQueue{
 		mutable:           mutable,
@@ -341,6 +342,7 @@ func (mq *memtableQueue) renewMutable() {
 		mq.memtableSizeLimit,
 	)
 	mq.queue[len(mq.queue)-1] = mq.mutable
+	verifPoint("memtable.created", mq.mutable.index)
 }
 
 // rotateIfNotEmpty rotates the mutable memtable unless it holds no documents,
@@ -370,6 +372,7 @@ func (mq *memtableQueue) rotateNoLock() {
 
 	// Add to queue
 	mq.queue = append(mq.queue, mq.mutable)
+	verifPoint("memtable.created", mq.mutable.index)
 }
 
 // list returns all memtables (oldest first, including mutable).
